@@ -31,7 +31,7 @@ RULE = ('pool of generated/copied files of self-describing formats (netcdf, IOAP
         'a probe, each in a freshly forked process; compared: reader chosen at every step and registry '
         'order after every step (model), probe reader and data digest vs a fresh process (oracle), '
         'auto-detected vs explicitly named open; non-trivial = history contains at least one '
-        'suffix-matched open of a different format than the probe; a punch file only bpch2 reads before ordinary punch files; a punch file with a tracer its tracerinfo.dat does not list, opened repeatedly; an ICARTT open with keysubs= before ICARTT files whose column names contain those characters; a two-step gridded file (TSTEP unlimited) before files with a TSTEP of the same length (the unlimited flag is part of the digest)')
+        'suffix-matched open of a different format than the probe; a punch file only bpch2 reads before ordinary punch files; a punch file with a tracer its tracerinfo.dat does not list, opened repeatedly; ICARTT files delimited by commas and by blanks in one history; boundary files of one layout with 1 and 2 time steps; an ICARTT open with keysubs= before ICARTT files whose column names contain those characters; a two-step gridded file (TSTEP unlimited) before files with a TSTEP of the same length (the unlimited flag is part of the digest)')
 ASSUMPTIONS = ['isMine() answers are measured once per pool file in a fresh process and passed to the model; '
                'the model then predicts every selection and the registry after every step',
                'process-global state other than the registry (module caches) is observed through the probe digest only']
@@ -180,6 +180,34 @@ def _build_pool():
         pth = os.path.join(d, 'ffidash_%s%s' % (suffix, ext))
         open(pth, 'w').write(txt)
         add('ffidash_%s' % suffix, pth)
+    # the same ICARTT content delimited by commas (the sample uses blanks)
+    lines = txt.replace('OH-pptv', 'OH_pptv').replace('HO2.pptv', 'HO2_pptv').split('\n')
+    nhead = int(lines[0].split()[0])
+
+    def _numeric(line):
+        toks = line.split()
+        if len(toks) < 2:
+            return False
+        try:
+            [float(t) for t in toks]
+            return True
+        except ValueError:
+            return False
+    clines = [(', '.join(l.split()) if (i == nhead - 1 or i >= nhead or _numeric(l)) and l.strip() else l) for i, l in enumerate(lines)]
+    for suffix, ext in (('own', '.ffi1001'), ('noext', '')):
+        pth = os.path.join(d, 'fficomma_%s%s' % (suffix, ext))
+        open(pth, 'w').write('\n'.join(clines))
+        add('fficomma_%s' % suffix, pth)
+    # two boundary files of one grid and one species list with different numbers of time steps
+    cbn = S.gen_bnd(r0)
+    while len(cbn['tflag']) < 2:
+        cbn = S.gen_bnd(r0)
+    cb1 = dict(cbn, tflag=cbn['tflag'][:1], etflag=cbn['etflag'][:1], bdata=cbn['bdata'][:1])
+    for tag, cc in (('bndgen2', cbn), ('bndgen1', cb1)):
+        for suffix, ext in (('own', '.lateral_boundary'), ('noext', '')):
+            pth = os.path.join(d, '%s_%s%s' % (tag, suffix, ext))
+            open(pth, 'wb').write(S.bnd_encode(cc))
+            add('%s_%s' % (tag, suffix), pth)
     pth = os.path.join(d, 'x_ffisubs.ffi1001')
     shutil.copyfile(tc.self_described_paths['ffi1001'], pth)
     add('x_ffisubs', pth)
@@ -326,6 +354,13 @@ def _run_history(pool, classes, hist, probe, named):
     return res
 
 
+def _fresh_named(pool, classes, key, named):
+    import PseudoNetCDF as pnc
+    cid = {c: i for i, c in enumerate(classes)}
+    cid[USER] = len(classes)
+    return _open_one(pnc, pool[key], cid, format=named)
+
+
 def _fresh(pool, classes, key, withreg=False):
     import PseudoNetCDF as pnc
     cid = {c: i for i, c in enumerate(classes)}
@@ -338,7 +373,8 @@ def _fresh(pool, classes, key, withreg=False):
     return _open_one(pnc, pool[key], cid, **kw)
 
 
-NAMED = {'uamiv': 'uamiv', 'lateral_boundary': 'lateral_boundary', 'ffi1001': 'ffi1001',
+NAMED = {'uamiv': 'uamiv', 'lateral_boundary': 'lateral_boundary', 'ffi1001': 'ffi1001', 'fficomma': 'ffi1001', 'ffidash': 'ffi1001',
+         'bndgen1': 'lateral_boundary', 'bndgen2': 'lateral_boundary',
          'humidity_own': 'humidity', 'vertical_diffusivity_own': 'vertical_diffusivity',
          'plain': 'netcdf', 'ioapi': 'ioapi'}
 
@@ -416,7 +452,13 @@ def gen(rng, tier):
                   ([['bpchu_own', None]], 'bpchu_own'), ([['bpchu_noext', None], ['bpchp_own', None]], 'bpchu_own'),
                   ([['bpchu_own', 'bpch']], 'bpchu_noext'),
                   ([['x_ffisubs', None]], 'ffidash_own'), ([['x_ffisubs', None], ['ffi1001_own', None]], 'ffidash_noext'),
-                  ([['ffidash_own', None]], 'x_ffisubs')]:
+                  ([['ffidash_own', None]], 'x_ffisubs'),
+                  # ICARTT files with different delimiters; boundary files of one layout with different numbers of steps
+                  ([['ffi1001_own', None]], 'fficomma_noext'), ([['fficomma_own', None]], 'ffi1001_noext'),
+                  ([['ffi1001_noext', None], ['fficomma_own', 'ffi1001']], 'fficomma_own'),
+                  ([['fficomma_noext', None], ['ffi1001_own', 'ffi1001']], 'ffi1001_own'),
+                  ([['bndgen2_own', None]], 'bndgen1_noext'), ([['bndgen1_own', None]], 'bndgen2_own'),
+                  ([['bndgen2_noext', 'lateral_boundary']], 'bndgen1_own')]:
         out.append(dict(hist=h, probe=pr))
     # the history that used to break: an .nc open before an extension-less netCDF probe
     out.append(dict(hist=[['plain_own', None]], probe='ioapi_noext'))
@@ -435,6 +477,9 @@ def impl(case):
     named = _named_for(case['probe'])
     res = _in_child(_run_history, pool, classes, case['hist'], case['probe'], named)
     res['fresh'] = _in_child(_fresh, pool, classes, case['probe'], any(k == REG for k, _ in case['hist']))
+    if named and any(k == case['probe'] and fmt == named for k, fmt in case['hist']):
+        # the probe is also opened with its format named somewhere in the history: what a fresh process gives for that
+        res['fresh_named'] = _in_child(_fresh_named, pool, classes, case['probe'], named)
     return res
 
 
@@ -516,6 +561,16 @@ def oracle(case, res):
                     case['probe'], _named_for(case['probe']), nm['err'])
             if nm['digest'] != probe['digest']:
                 return 'probe %s: auto-detected data differ from format=%s' % (case['probe'], _named_for(case['probe']))
+    if 'fresh_named' in res:
+        fn = res['fresh_named']
+        named = _named_for(case['probe'])
+        opens = [(k, fmt) for k, fmt in case['hist'] if k != REG]
+        for i, (k, fmt) in enumerate(opens):
+            if k == case['probe'] and fmt == named and i < len(res['steps']):
+                st = res['steps'][i]
+                if ('err' in st) != ('err' in fn) or ('err' not in st and st['digest'] != fn['digest']):
+                    return 'step %d of the history opens %s with format=%s: %s, a fresh process gives %s' % (
+                        i, k, named, {a: b for a, b in st.items() if a != 'reg'}, fn)
     regs = [s['reg'] for s in res['steps']]
     if not any(k == REG for k, _ in case['hist']) and any(r != regs[0] for r in regs):
         return 'registry changed during the history (length %d -> %d)' % (len(regs[0]), len(regs[-1]))
